@@ -34,7 +34,7 @@ func sampleOf(c *Case) interface{} {
 // try journals, counts and executes one case.
 func try(test string, c *Case) error {
 	hx.Journal(test, c)
-	hx.Eval()
+	hx.ExtraAdd("machines", 1)
 	hx.Sample(test, sampleOf(c))
 	return RunCase(c)
 }
